@@ -311,6 +311,14 @@ func init() {
 				}
 				cs = append(cs, c)
 			}
+			// who is counted: DAGs in which a validator is removed and keeps gossiping
+			counted := 8
+			if tier == "thorough" {
+				counted = 80
+			}
+			for i := 0; i < counted; i++ {
+				cs = append(cs, CaseSpec{Kind: "counted", P: map[string]int64{"n": int64(4 + i%3), "events": int64(450 + (i*53)%300)}, S: map[string]string{}})
+			}
 			return cs
 		},
 		Run: func(cs CaseSpec) *CaseResult {
@@ -321,6 +329,8 @@ func init() {
 				return runThresholdEdits(cs)
 			case "fame":
 				return runThresholdFame(cs)
+			case "counted":
+				return runThresholdCounted(cs)
 			default:
 				return runThresholdDecisions(cs)
 			}
@@ -401,5 +411,127 @@ func runThresholdFame(cs CaseSpec) *CaseResult {
 		res.digest("c19fame", cs.Seed, cs.Index, len(d.Events), d.Events[len(d.Events)-1].Hash)
 	}
 	res.Sample = map[string]interface{}{"kind": "fame decisions replayed with the validators' supermajority as threshold", "n": sp.N, "events": len(d.Events), "decisions": decided, "shape": cs.Str("shape", "random")}
+	return res
+}
+
+// runThresholdCounted: a supermajority is a count of VALIDATORS. A DAG of n
+// creators is run by a real Hashgraph; when an early block is committed one
+// creator is removed from the validator set (effective six rounds later, as
+// for an accepted leave request) but keeps gossiping. Afterwards, for every
+// round: every witness on record must have been created by a validator of
+// that round, and every event that was moved to the next round must strongly
+// see (real predicate, harness-side counting) the witnesses of more than two
+// thirds of the validators of its parent round - former validators do not
+// count.
+func runThresholdCounted(cs CaseSpec) *CaseResult {
+	res := newResult(cs)
+	rng := cs.rng("c19counted")
+	sp := dagSpecFromCase(cs)
+	sp.Liars = 0
+	sp.Private = 0
+	sp.NoOtherFirst = 0
+	if rng.Intn(2) == 0 {
+		// one more creator is hard to hear for a while: rounds then advance on a
+		// bare supermajority, where one uncounted vote makes the difference
+		sp.Hidden = true
+		sp.HiddenHalf = (sp.N - 1) / 2
+		sp.HideFrom = 0.3 + 0.2*rng.Float64()
+		sp.HideTo = sp.HideFrom + 0.3 + 0.2*rng.Float64()
+	}
+	d := genDag(rng, cs.Seed*7919+int64(cs.Index), sp)
+	removed := rng.Intn(sp.N)
+	x := execDag(d, d.Events, ExecOpts{Store: "inmem", Cache: len(d.Events)*2 + 200, Batch: 1, Removal: true, RemoveCreator: removed, RemoveAfterBlock: 1 + rng.Intn(3)})
+	defer x.close()
+	res.Evaluations++
+	if x.Err != nil {
+		res.inconclusive(fmt.Sprintf("execution failed: %v", x.Err))
+		return res
+	}
+	if x.RemovalRound == 0 || x.Store.LastRound() < x.RemovalRound+2 {
+		res.count("counted_dags_that_end_before_the_removal_takes_effect", 1)
+		res.Sample = map[string]interface{}{"kind": "removed validator keeps gossiping", "note": "history too short"}
+		return res
+	}
+	setOf := func(r int) (map[string]bool, int) {
+		ps, err := x.Store.GetPeerSet(r)
+		if err != nil {
+			return nil, 0
+		}
+		m := map[string]bool{}
+		for _, p := range ps.Peers {
+			m[p.PubKeyString()] = true
+		}
+		return m, len(ps.Peers)
+	}
+	pubOf := func(c int) string { return d.Peers[c].PubKeyString() }
+	lateEvents := 0
+	for _, de := range d.Events {
+		r, err := x.H.VerifRound(de.Hash)
+		if err != nil {
+			continue
+		}
+		if de.Creator == removed && r >= x.RemovalRound {
+			lateEvents++
+		}
+		// parent round
+		pr := -1
+		for _, p := range de.Parents {
+			if p == "" {
+				continue
+			}
+			if q, err := x.H.VerifRound(p); err == nil && q > pr {
+				pr = q
+			}
+		}
+		if pr < 0 || r != pr+1 || pr < x.RemovalRound {
+			continue
+		}
+		ri, err := x.Store.GetRound(pr)
+		if err != nil {
+			continue
+		}
+		members, n := setOf(pr)
+		ps, _ := x.Store.GetPeerSet(pr)
+		seenBy := map[string]bool{}
+		for _, w := range ri.Witnesses() {
+			wd := d.ByHash[w]
+			if wd == nil || !members[pubOf(wd.Creator)] {
+				continue // not a validator of that round: its witness carries no weight
+			}
+			if ss, err := x.H.VerifStronglySee(de.Hash, w, ps); err == nil && ss {
+				seenBy[pubOf(wd.Creator)] = true
+			}
+		}
+		res.Evaluations++
+		res.count("round_increments_recounted_over_validators_only", 1)
+		if 3*len(seenBy) <= 2*n {
+			res.violate("C19", "C19:round-advanced-without-a-supermajority-of-validators",
+				fmt.Sprintf("event %s (creator %d) was moved to round %d although it strongly sees the round-%d witnesses of only %d of the %d validators of that round (creator %d was removed from round %d on and keeps gossiping)", trunc(de.Hash, 12), de.Creator, r, pr, len(seenBy), n, removed, x.RemovalRound),
+				map[string]interface{}{"n": sp.N, "removed_creator": removed, "removal_effective_round": x.RemovalRound, "parent_round": pr})
+			return res
+		}
+	}
+	for r := x.RemovalRound; r <= x.Store.LastRound(); r++ {
+		ri, err := x.Store.GetRound(r)
+		if err != nil {
+			continue
+		}
+		members, _ := setOf(r)
+		for _, w := range ri.Witnesses() {
+			wd := d.ByHash[w]
+			res.count("witnesses_checked_against_the_round_s_validators", 1)
+			if wd != nil && !members[pubOf(wd.Creator)] {
+				res.violate("C19", "C19:non-validator-counted-as-witness",
+					fmt.Sprintf("round %d lists a witness created by creator %d, who is not a validator of that round (removed from round %d on): its votes and its weight in round increments are counted against the supermajority", r, wd.Creator, x.RemovalRound),
+					map[string]interface{}{"n": sp.N, "removed_creator": removed, "removal_effective_round": x.RemovalRound, "round": r})
+				return res
+			}
+		}
+	}
+	res.count("events_of_the_former_validator_after_its_removal", int64(lateEvents))
+	if lateEvents >= 3 {
+		res.digest("c19counted", cs.Seed, cs.Index, len(d.Events), d.Events[len(d.Events)-1].Hash)
+	}
+	res.Sample = map[string]interface{}{"kind": "removed validator keeps gossiping: who is counted", "n": sp.N, "events": len(d.Events), "removal_effective_round": x.RemovalRound, "last_round": x.Store.LastRound(), "events_of_former_validator_after_removal": lateEvents}
 	return res
 }
